@@ -1,8 +1,37 @@
-(* C18 -- endpoint-mapper replies: right port if well-formed, bounded work for any reply. Statements only. *)
-From V Require Import Prelude.Base gen.K_rpc gen.C_rpc Proofs.RpcKernels.
+(* C18 -- endpoint-mapper replies: right port if well-formed, bounded work for any reply. Statements only.
+   ndr64_eptmap_reply (Spec/Ndr64Epm.v) is the independent NDR64 reference marshaller of an ept_map reply
+   (running-offset alignment, C706 tower encoding); wf_reply: the entry handle is a context handle, counts and
+   lengths fit their wire widths, every floor's lhs/rhs fit their 2-octet counts, UUID floors carry a UUID. *)
+From V Require Import Prelude.Base Prelude.PyInt Spec.Ndr64Epm gen.K_rpc gen.C_rpc.
+From V Require Import Model.Pdu Model.Request Model.RpcLoop Model.Bind Model.Epm.
+From V Require Import Proofs.RpcKernels Proofs.RpcEpm Proofs.RpcC18 Proofs.RpcExamples.
 
 (* the count guard regenerated from EptMapResult.unpack admits exactly the counts whose referent array fits *)
 Theorem C18_count_guard : forall tower_count n,
   k_eptres_count_guard (k_referent_skip tower_count) n = false <-> 48 + 8 * tower_count <= n.
 Proof. exact (fun c n => eq_ind_r (fun x => k_eptres_count_guard x n = false <-> 48 + 8 * c <= n) (count_guard_spec (8 * c) n) (referent_skip_spec c)). Qed.
 Print Assumptions C18_count_guard.
+
+(* every well-formed reply (any number of towers, floors of known or unknown protocols, hence every tower
+   length and alignment padding, any max_towers / status): all towers and floors are decoded as sent, and the
+   client returns the port of the first TCP floor in tower order; non-zero status or no TCP floor: ValueError *)
+Theorem C18_port : forall h max_towers towers status fuel, wf_reply h max_towers towers status = true ->
+  (length (ndr64_eptmap_reply h max_towers towers status) <= fuel)%nat ->
+  ept_map_result_unpack fuel (ndr64_eptmap_reply h max_towers towers status)
+    = Ok ({| er_entry_handle := h; er_towers := map (map floor_of_spec) towers; er_status := status |}, tower_ticks towers)
+  /\ process_ept_map_result fuel (ndr64_eptmap_reply h max_towers towers status)
+    = if status =? 0 then match spec_tcp_port towers with Some p => Ok (p, tower_ticks towers) | None => Raise ValueError end
+      else Raise ValueError.
+Proof. exact c18_reply. Qed.
+Print Assumptions C18_port.
+
+(* a decoded floor is exactly the (protocol, lhs, rhs) sent; it is a TCP floor iff its identifier is 0x07 *)
+Theorem C18_floor_as_sent : forall p l r, fl_protocol (floor_of_spec (p, l, r)) = p /\ fl_lhs (floor_of_spec (p, l, r)) = l
+  /\ fl_rhs (floor_of_spec (p, l, r)) = r
+  /\ floor_tcp_port (floor_of_spec (p, l, r)) = if p =? tcp_protocol_id then Some (be_val r) else None.
+Proof. exact (fun p l r => conj eq_refl (conj eq_refl (conj eq_refl (floor_tcp_port_spec p l r)))). Qed.
+Print Assumptions C18_floor_as_sent.
+
+Example C18_example : wf_reply None 4 ex_towers 0 = true /\ spec_tcp_port ex_towers = Some 49664
+  /\ wf_reply None 4 ex_towers 382312662 = true.
+Proof. exact example_reply. Qed.
